@@ -293,7 +293,13 @@ CLAIMS = {
               "flushes and deliveries, whenever nothing is pending, queued or in flight the "
               "receiver's copy equals the owner's instances (quiescent_copy_is_own, by the invariant 'copy + everything on its "
               "way = owner'), two receivers agree (receivers_agree), and keeping only the last change per key does not change "
-              "a batch's effect (coalescing_sound). That the queues do drain is liveness over the real scheduler: explored on "
+              "a batch's effect (coalescing_sound). The periodic digest of a node's gRPC connections (RNacos/Model/Digest.lean; the "
+              "registry's part of it, Naming.diffClientData, is executed against the real NamingActor) makes a peer's record of "
+              "that node's connections equal to the node's own, whatever the peer held before - nothing is left for a "
+              "connection the digest does not name, the empty digest clears everything (receive_matches_sender, "
+              "empty_digest_clears, digest_round_heals; that the digest is sent also when it is empty is read off the source by "
+              "the translator on every run, Gen.digestSentWhenEmpty; unsent_empty_digest_leaves_ghosts keeps the alternative "
+              "visible). That the queues do drain is liveness over the real scheduler: explored on "
               "real 3-process clusters (HTTP registrations addressed to arbitrary nodes, a kill/restart in between, lists of "
               "every node compared after settling; directed scenarios: a rolling replacement through every node, heart-beating "
               "clients of which one deregisters right after a beat - compared after the owner's next heartbeat flush; a node "
